@@ -44,6 +44,7 @@ type Ctrl struct {
 	active   map[reconcile.Request]*Task
 	dirty    map[reconcile.Request]bool
 	failures map[reconcile.Request]int
+	waiting  map[reconcile.Request]*Timer
 	Runs     int
 }
 
@@ -72,6 +73,7 @@ func (m *Manager) Add(c *Ctrl) *Ctrl {
 	c.active = map[reconcile.Request]*Task{}
 	c.dirty = map[reconcile.Request]bool{}
 	c.failures = map[reconcile.Request]int{}
+	c.waiting = map[reconcile.Request]*Timer{}
 	if c.MaxConc == 0 {
 		c.MaxConc = 10
 	}
@@ -117,7 +119,15 @@ func (m *Manager) enqueueAfter(c *Ctrl, req reconcile.Request, d time.Duration, 
 		c.Enqueue(req)
 		return
 	}
-	m.sim.AddTimer(c.id, d, kind+c.Name+" "+req.String(), false, func() { c.Enqueue(req) })
+	// like client-go's delaying queue: one waiting entry per item, the earliest deadline wins
+	at := m.sim.Now().Add(d)
+	if old := c.waiting[req]; old != nil && !old.dead {
+		if !at.Before(old.At) {
+			return
+		}
+		m.sim.StopTimer(old)
+	}
+	c.waiting[req] = m.sim.AddTimer(c.id, d, kind+c.Name+" "+req.String(), false, func() { delete(c.waiting, req); c.Enqueue(req) })
 }
 
 type ready struct {
